@@ -457,3 +457,58 @@ class LongestSegments(ChoiceSegments):
             if kind_ != 'fall' or v.status != 'unsat':
                 return False, {'verdict': v.status, 'src': src, 'model': str(v.model)[:400]}
         return True, None
+
+
+def class_body_closure(rep, tier, unit='segments:class-body'):
+    """class bodies with 5..8 members (plain / let / pass in every mix): every member segment is, up to numbering, a segment shape of the
+    bodies proved outright (<= 3 members), every name is assigned exactly once in its own segment, the constructor call lists exactly
+    the plain fields in declaration order, and the span store follows it"""
+    def build(shape, flags):
+        names = [f'm{i + 1}' if k in 'fl' else None for i, k in enumerate(shape)]
+        fields = [f'm{i + 1}' for i, k in enumerate(shape) if k == 'f']
+        node = X.Seq(*[Stub(i + 1, *f) for i, f in enumerate(flags)], names=names, constructor='Foo', constructor_args=fields)
+        return frag.emit(node, False), names, fields
+
+    def segs_of(src):
+        tree = ast.parse(src)
+        loop = next(s for s in tree.body if isinstance(s, ast.While))
+        body = loop.body
+        starts = [i for i, s in enumerate(body) if '_CHILD_' in ast.unparse(s) and isinstance(s, ast.Assign)]
+        return tree, [body[a:b] for a, b in zip(starts, starts[1:] + [None])]
+
+    def nrm(stmts):
+        return re.sub(r'\bm\d+\b', 'mK', re.sub(r'item\d+', 'itemK', norm(stmts)))
+    known = set()
+    for n in (1, 2, 3):
+        for shape in itertools.product('flp', repeat=n):
+            for fl in itertools.product(FLAGS, repeat=n):
+                src, names, fields = build(shape, fl)
+                tree, sg = segs_of(src)
+                for s in sg[:-1]:
+                    known.add(nrm(s))
+                last = [x for x in sg[-1] if not isinstance(x, ast.Break) and not ast.unparse(x).startswith(('_result = Foo(', '_result._metadata'))]
+                known.add(nrm(last))
+    bad, checked = [], 0
+    import random
+    rnd = random.Random(5)
+    for n in (5, 6, 8):
+        for _ in range(25 if tier == 'quick' else 250):
+            shape = [rnd.choice('flp') for _ in range(n)]
+            fl = [rnd.choice(FLAGS) for _ in range(n)]
+            checked += 1
+            src, names, fields = build(shape, fl)
+            tree, sg = segs_of(src)
+            assigned = []
+            for i, s in enumerate(sg):
+                core_ = s if i < len(sg) - 1 else [x for x in s if not isinstance(x, ast.Break) and not ast.unparse(x).startswith(('_result = Foo(', '_result._metadata'))]
+                if nrm(core_) not in known:
+                    bad.append({'shape': ''.join(shape), 'segment': i, 'text': norm(core_)})
+                m = re.search(r'\b(m\d+) = _result', norm(core_))
+                assigned.append(m.group(1) if m else None)
+            ctor = next((ast.unparse(x.value) for x in sg[-1] if ast.unparse(x).startswith('_result = Foo(')), None)
+            tail_ok = [ast.unparse(x) for x in sg[-1]][-3:-1] == [f'_result = Foo({", ".join(fields)})', ast.unparse(sg[-1][-2])] and \
+                ast.unparse(sg[-1][-2]).startswith('_result._metadata.position_info = (start_pos') and isinstance(sg[-1][-1], ast.Break)
+            if assigned != names or ctor != f'Foo({", ".join(fields)})' or not tail_ok:
+                bad.append({'shape': ''.join(shape), 'assigned': assigned, 'names': names, 'ctor': ctor})
+    rep.add(unit, f'closure: {checked} class bodies with 5, 6, 8 members: member segments are proved shapes, names assigned once in order, constructor lists the plain fields in order, then the span store',
+            'case_complete', not bad, detail={'unmatched': bad[:3]})
